@@ -8,10 +8,10 @@ void harness(void) {
     PictureParentControlSet *ppcs = (PictureParentControlSet *)malloc(sizeof *ppcs); EbBufferHeaderType *o = (EbBufferHeaderType *)malloc(sizeof *o);
     V_ASSUME(scs && pcs && ppcs && o);
     pcs->parent_pcs_ptr = ppcs; scs->static_config.stat_report = (uint32_t)vinbool();
-    ppcs->luma_sse = vin32(); ppcs->cb_sse = vin32(); ppcs->cr_sse = vin32(); ppcs->luma_ssim = 0; ppcs->cb_ssim = 0; ppcs->cr_ssim = 0;
+    ppcs->luma_sse = (__typeof__(ppcs->luma_sse))vin64(); ppcs->cb_sse = (__typeof__(ppcs->cb_sse))vin64(); ppcs->cr_sse = (__typeof__(ppcs->cr_sse))vin64();   /* whatever width the fields have */ ppcs->luma_ssim = 0; ppcs->cb_ssim = 0; ppcs->cr_ssim = 0;
     o->luma_sse = vin32(); o->cb_sse = vin32(); o->cr_sse = vin32();     /* stale packet contents */
     copy_stats(scs, pcs, o);
-    if (scs->static_config.stat_report) V_ASSERT(o->luma_sse == ppcs->luma_sse && o->cb_sse == ppcs->cb_sse && o->cr_sse == ppcs->cr_sse, "packet carries the picture's SSE values when reporting is on");
+    if (scs->static_config.stat_report) V_ASSERT(o->luma_sse == (uint32_t)ppcs->luma_sse && o->cb_sse == (uint32_t)ppcs->cb_sse && o->cr_sse == (uint32_t)ppcs->cr_sse, "packet carries the picture's SSE values as 32-bit values (modulo 2^32) when reporting is on");
     else V_ASSERT(o->luma_sse == 0 && o->cb_sse == 0 && o->cr_sse == 0, "packet statistics are zero when reporting is off");
     V_END();
 }
